@@ -150,8 +150,11 @@ impl<'a, B: IoBufMut + ?Sized> AncillaryBuilder<'a, B> {
             .expect("sufficient space");
         cmsg.set_level(level);
         cmsg.set_ty(ty);
+        // Finish writing through the raw message pointer before the buffer is
+        // borrowed again to record the new length.
+        let len = cmsg.encode_data(value)?;
         unsafe {
-            self.buffer.advance(cmsg.encode_data(value)?);
+            self.buffer.advance(len);
         }
 
         unsafe { self.inner.next(self.buffer.buf_mut_ptr().cast()) };
